@@ -294,35 +294,50 @@ def r3(F, R):
 
 
 def r4(F, R):
-    R.rule("C09-R4", "estimator lanes before the final window: update_estimator_late is called exactly on the `is_late` edge (no further window fits) and "
-                     "update_estimator_early on the other; both are reached on every path that does not return early")
-    b = global_adapt(F)
-    if b is None:
+    R.rule("C09-R4", "estimator lanes before the final window: on the `is_late` edge (no further window fits) the step-size estimator is advanced with the "
+                     "symmetric acceptance statistic, on the other edge with the plain one (the estimator-update helpers of the step-size strategy are inlined, "
+                     "whether they are two functions or one with a flag)")
+    from . import c07 as C07
+    b0 = global_adapt(F)
+    if b0 is None:
         return
-    late = b.calls_to(lambda c: c.get("name") == "update_estimator_late")
-    early = b.calls_to(lambda c: c.get("name") == "update_estimator_early")
+    b = C07.estimator_inlined(F, b0)
     site = "%s @%s" % (b.path, b.loc())
     found = False
-    for ebb, et in early:
-        for lbb, lt in late:
-            ce = b.control_deps().get(ebb, set())
-            cl = b.control_deps().get(lbb, set())
-            common = {a for (a, s) in ce} & {a for (a, s) in cl}
-            for sw in common:
-                v = b.value(b.blocks[sw]["term"]["discr"])
-                s = " ".join(vt_str(x) for x in alts(b, v))
-                if "final_step_size_window" in s and "draw" in s and ("Gt" in s or ">" in s):
-                    # which edge carries late?
-                    t = b.blocks[sw]["term"]
-                    tgt_true = t["otherwise"] if all(a["val"] == 0 for a in t["arms"]) else next((a["target"] for a in t["arms"] if a["val"] != 0), None)
-                    l_on_true = (sw, tgt_true) in cl
-                    found = True
-                    if l_on_true:
-                        R.ok("C09-R4", b.path + ":lanes", "%s @%s" % (b.path, loc(lt["span"])), "late estimator on is_late, early estimator otherwise")
-                    else:
-                        R.bad("C09-R4", b.path + ":lanes", "%s @%s" % (b.path, loc(lt["span"])), "early/late estimator updates are swapped with respect to is_late")
+    for sw, blk in enumerate(b.blocks):
+        t = blk["term"]
+        if blk["cleanup"] or t["k"] != "switch" or t.get("discr_ty") != "bool":
+            continue
+        v = b.value(t["discr"])
+        s = " ".join(vt_str(x) for x in alts(b, v))
+        if not ("final_step_size_window" in s and "draw" in s and ("Gt" in s or ">" in s)):
+            continue
+        dl = t["discr"]["pl"]["l"] if t["discr"]["k"] in ("copy", "move") and not t["discr"]["pl"]["p"] else None
+        known_l = {dl}
+        # the user variable the discriminant is a copy of
+        for d in b.defs().get(dl, []) if dl is not None else []:
+            if d[0] == "stmt" and d[3]["k"] == "assign" and d[3]["rv"]["k"] == "use" and d[3]["rv"]["op"]["k"] in ("copy", "move") and not d[3]["rv"]["op"]["pl"]["p"]:
+                known_l.add(d[3]["rv"]["op"]["pl"]["l"])
+        tgt_true = t["otherwise"] if all(a["val"] == 0 for a in t["arms"]) else next((a["target"] for a in t["arms"] if a["val"] != 0), None)
+        tgt_false = next((a["target"] for a in t["arms"] if a["val"] == 0), None) if tgt_true != t["otherwise"] or all(a["val"] == 0 for a in t["arms"]) else t["otherwise"]
+        if tgt_true is None or tgt_false is None:
+            continue
+        late_f, ls = C07.estimator_feed(b, tgt_true, {l: True for l in known_l if l is not None}, avoid=[sw])
+        early_f, es = C07.estimator_feed(b, tgt_false, {l: False for l in known_l if l is not None}, avoid=[sw])
+        if not ls and not es:
+            continue
+        found = True
+        lsite = "%s @%s" % (b.path, loc((ls or es)[0][1]["span"]))
+        sym = {f for f in late_f | early_f if "sym" in str(f)}
+        if late_f and early_f and late_f <= sym and not (early_f & sym) and "?" not in late_f | early_f:
+            R.ok("C09-R4", b.path + ":lanes", lsite, "late estimator (%s) on is_late, early estimator (%s) otherwise" % (sorted(late_f), sorted(early_f)))
+        elif late_f and early_f and early_f <= sym and not (late_f & sym):
+            R.bad("C09-R4", b.path + ":lanes", lsite, "early/late estimator updates are swapped with respect to is_late")
+        else:
+            R.bad("C09-R4", b.path + ":lanes", lsite, "on the is_late edge the estimator is fed %s, on the other edge %s; expected the symmetric statistic on is_late only" % (
+                sorted(late_f), sorted(early_f)))
     if not found:
-        R.bad("C09-R4", b.path + ":lanes", site, "no branch on `next_window + draw > final window` selecting between update_estimator_early and _late")
+        R.bad("C09-R4", b.path + ":lanes", site, "no branch on `next_window + draw > final window` selecting the statistic fed to the step-size estimator")
     R.floor("C09-R4", 1)
 
 
